@@ -141,7 +141,11 @@ def _run_chunk(exe, scenario, xsl, xml, ks, mode, throw, release, env, timeout):
 def sweep(exe, scenario, xsl, xml, ks, mode="single", jobs=None, throw=None, release=False, env=None,
           timeout=600):
     """Inject a failure at every k of `ks` (one forked child each).  Returns the records sorted by k; each
-    has k, outcome, via, outstanding, after, size, sig, and also status, phase, end, ctx, N, dtor, hsig, fsig."""
+    has k, outcome, via, outstanding, after, size, sig, and also status, phase (where the child was when it
+    ended: call|destroy|after|done), end (how it ended), ctx (normal|catch|unwind at the refused allocation),
+    N, out (same|diff|-), dtor (path  allocation<...<innermost destructor frame  of the refused allocation or
+    '-'), hsig (list of signatures of allocations made inside handlers / during unwinding after the refusal),
+    fsig (site of the first foreign/double free), and in persist mode refused, lsig, ldtor (last refusal)."""
     ks = sorted(set(int(k) for k in ks if k >= 1))
     if not ks:
         return []
@@ -196,7 +200,9 @@ def classify(rec):
                 "k=%s via=%s after=%s" % (rec.get("k"), rec.get("via"), rec.get("after")))
     sig = rec.get("sig")
     if oc == "swallowed":
-        return ("swallowed@" + short_sig(sig),
+        # the API reported success although an allocation was refused; out=diff: the result differs from
+        # the run without injection (e.g. document() catches everything and goes on with an empty node-set)
+        return ("swallowed:%s@%s" % (rec.get("out"), short_sig(sig)),
                 "k=%s status=0 out=%s after=%s" % (rec.get("k"), rec.get("out"), rec.get("after")))
     if oc in ("foreign", "double"):
         detail_sig = rec.get("fsig")
